@@ -199,6 +199,16 @@ func HarnessC08Dispatch(st any) {
 		sym.Assume(query[i] != '#' && query[i] != ' ' && query[i] > 0x20 && query[i] < 0x7f) // a raw query as a server would hand it over
 	}
 	req := &http.Request{Method: method, Host: "example.com", URL: &url.URL{Path: path, RawQuery: query}}
+	if sym.Param("raw") == 1 {
+		// percent-encoded request: the router matches on RawPath; Path is its decoded form
+		for i := 0; i < len(path); i++ {
+			sym.Assume(sym.ByteIn(path[i], rawPathBytes)) // a RawPath a server can hand over (RFC 3986 pchar / "/" / "%")
+		}
+		dec, ok := pctDecode(path)
+		sym.Assume(ok && dec != path)
+		req.URL.Path, req.URL.RawPath = dec, path
+		sym.Cover("percent-encoded request path")
+	}
 	want := s.ref.lookup("GET", "", path, true)
 	if want.ambiguous {
 		return
@@ -215,7 +225,7 @@ func HarnessC08Dispatch(st any) {
 	}
 	pat := want.route.pattern
 	switch {
-	case method == "CONNECT" || path == "/":
+	case method == "CONNECT" || req.URL.Path == "/":
 		sym.Cover("tsr but CONNECT: unmatched")
 		sym.Assert(got.kind == "noroute", "CONNECT (and \"/\") never take a trailing-slash action")
 	case s.ignore[pat]:
@@ -236,7 +246,11 @@ func HarnessC08Dispatch(st any) {
 		sym.Assert(ok, "(e) Location is a same-authority relative reference")
 		if ok {
 			dp, okd := pctDecode(rp)
-			sym.Assert(okd && dp == toggleSlash(path), "(e) Location resolves to the slash-adjusted request path")
+			wantPath := toggleSlash(path)
+			if sym.Param("raw") == 1 {
+				wantPath, _ = pctDecode(wantPath) // compare decoded octets
+			}
+			sym.Assert(okd && dp == wantPath, "(e) Location resolves to the slash-adjusted request path")
 			sym.Assert(rq == query && !frag, "(e) Location keeps the query string and has no fragment")
 		}
 	default:
@@ -301,3 +315,5 @@ func HarnessC08Irrelevant(st any) {
 		cb.Close()
 	}
 }
+
+const rawPathBytes = "abcdefghijklmnopqrstuvwxyzABCDEFGHIJKLMNOPQRSTUVWXYZ0123456789-._~!$&'()*+,;=:@/%"
